@@ -1,16 +1,16 @@
 CONSTANTS
-  Codec = "lines"
-  Alpha = {97, 13, 10, 255}
-  MaxLen = 5
+  Codec = "lpe"
+  Alpha = {0, 1, 2, 9}
+  MaxLen = 2
   LpBad = 9
   LpScale = 1
   EofDecodes = TRUE
   KeepBufOnPending = TRUE
   SurfaceIoErr = TRUE
-  EofFastPath = FALSE
+  EofFastPath = TRUE
 SPECIFICATION Spec
 VIEW View
-INVARIANTS C13_Frames C13_Prefix C13_TerminalLast C13_Progress LogInit
+INVARIANTS C13_Frames C13_Prefix C13_TerminalLast C13_Progress 
 PROPERTIES C13_IoErrSurfaced
-ACTION_CONSTRAINT LogEdge
+
 CHECK_DEADLOCK FALSE
